@@ -202,6 +202,11 @@ Definition kc_extend (k : kcap) (e : event) (alias : option N) : option kcap :=
     end
   else Some (mkKc (k_arena k) (k_handle k) (k_events k ++ [(e, alias)]) (k_next k + 1) (k_deferred k) (k_needs k)).
 
+(* trailing `all` (epsilon edge to accept): get_or_insert_with(KleeneCapture::new).extend_simple(..) *)
+Definition kc_count (ok : option kcap) (e : event) (alias : option N) : kcap :=
+  let k := match ok with Some k => k | None => kc_new None end in
+  mkKc (k_arena k) (k_handle k) (k_events k ++ [(e, alias)]) (k_next k + 1) (k_deferred k) (k_needs k).
+
 (* evaluate_deferred_predicate: consecutive pairs, previous event bound to extract_ref_alias *)
 Fixpoint deferred_ok (p : pred) (evs : list event) (c : captured) : bool :=
   match evs with
@@ -280,7 +285,8 @@ Definition advance (n : nfa) (lim : limits) (r : run) (e : event) : adv :=
         if (match r_kc r with Some k => N.leb (max_events lim) (k_next k) | None => false end) then AContinue r
         else
           let r1 := push r e (s_alias cur) in
-          if s_eps_acc cur then ACompleteContinue r1 (match_of r1)
+          if s_eps_acc cur then
+            let r2 := set_kc r1 (Some (kc_count (r_kc r1) e (s_alias cur))) in ACompleteContinue r2 (match_of r2)
           else
             match kc_extend (kc_or_new r1 cur) e (s_alias cur) with
             | Some k => AContinue (set_kc r1 (Some k))
@@ -302,7 +308,9 @@ Definition advance (n : nfa) (lim : limits) (r : run) (e : event) : adv :=
                    | TAccept => Some (complete_run r1 lim)
                    | TKleene =>
                      if s_self ns then
-                       if s_eps_acc ns then Some (ACompleteContinue r1 (match_of r1))
+                       if s_eps_acc ns then
+                         let r2 := set_kc r1 (Some (kc_count (r_kc r1) e (s_alias ns))) in
+                         Some (ACompleteContinue r2 (match_of r2))
                        else
                          let k := kc_or_new r1 ns in
                          if N.leb (max_events lim) (k_next k) then Some (AContinue (set_kc r1 (Some k)))
